@@ -263,6 +263,29 @@ func (a *vfC18Auth) Allow(user, pass string) {
 	a.mu.Unlock()
 }
 
+// Revoke removes a registered pair: from now on the AuthFunc rejects it.
+func (a *vfC18Auth) Revoke(user string) {
+	a.mu.Lock()
+	delete(a.ok, user)
+	a.mu.Unlock()
+}
+
+// vfC18Accepted reports whether the log holds an auth_ok event for exactly (user, pass)
+// before position seq.
+func vfC18Accepted(evs []vfEvent, seq int, user, pass string) bool {
+	for _, e := range evs {
+		if e.Seq >= seq {
+			break
+		}
+		if e.Kind == "auth_ok" && e.Tag == user {
+			if p, _ := e.F["pass"].(string); p == pass {
+				return true
+			}
+		}
+	}
+	return false
+}
+
 func (a *vfC18Auth) Func(user, pass string) bool {
 	a.mu.Lock()
 	p, known := a.ok[user]
